@@ -46,9 +46,9 @@ static JVal gen_scalar_of(int k, vf::Rng& r) {
   switch (k) {
     case qNull: return JVal::null();
     case qBool: return JVal::boolean(r.coin());
-    case qUint: return JVal::uint(r.below(1000));
-    case qInt: return JVal::sint(-(int64_t)r.below(1000) - 1);
-    case qDbl: return JVal::dbl((double)(int64_t)r.below(1000) + 0.5);
+    case qUint: return JVal::uint(r.below(4) ? r.below(1000) : r.coin() ? UINT64_MAX - r.below(3) : (1ULL << 63) + r.below(3) - 1);  // also around 2^63 and 2^64
+    case qInt: return JVal::sint(r.below(4) ? -(int64_t)r.below(1000) - 1 : INT64_MIN + (int64_t)r.below(3));
+    case qDbl: return JVal::dbl(r.below(4) ? (double)(int64_t)r.below(1000) + 0.5 : r.coin() ? -1e300 : 5e-324);
     default: {
       std::string s(r.below(6) == 0 ? r.range(30, 80) : r.range(0, 10), 'a');
       for (auto& c : s) c = (char)r.range(0x20, 0x7e);
